@@ -49,7 +49,7 @@ def handleC05 (args : List Sexp) : String :=
     -- `cert` (Model/AutoAtomic.lean) validates `toPat mid` against the engine's rewritten tree: equality up
     -- to certified auto-atomic / ending differences.  When the proved variant (`ll = false`) computes the
     -- same `mid`, Props.C05.rewrites_certified applies: same `find` from every start.  Both readings of an
-    -- alternation directly under an Atomic node (`dg`) are tried.
+    -- alternation directly under an Atomic node (`dg`) and of the kind comparison of fixed loops (`fk`) are tried.
     match rtl.bool?, rnode? n, rnode? n', tagged? "disj" dj, tagged? "uni" un with
     | some rtl, some n, some n', some dj, some un =>
       match dj.mapM predPair?, un.mapM pred? with
@@ -57,9 +57,9 @@ def handleC05 (args : List Sexp) : String :=
         let o := tableOracle dj un
         let fuel := 2 * size n + 8
         let p' := toPat rtl n'
-        let answer (dg : Bool) : Bool × String :=
-          let mid := rewriteTop false dg fuel rtl n
-          let midLL := rewriteTop true dg fuel rtl n
+        let answer (fk dg : Bool) : Bool × String :=
+          let mid := rewriteTop false fk dg fuel rtl n
+          let midLL := rewriteTop true fk dg fuel rtl n
           let pLL := toPat rtl midLL
           let r := (cert o rtl pLL p').close
           -- correspondence: the full model against the engine's tree
@@ -67,13 +67,19 @@ def handleC05 (args : List Sexp) : String :=
           -- the proved variant agrees with the full model: `rewrites_certified` applies
           let same := RNode.same mid midLL
           (okLL, toString (Sexp.list [.atom "ok", ofBool okLL, ofBool same,
-            mk "made" [ofNat r.made], mk "errs" (r.errs.map errSexp), mk "mid" [rnodeSexp midLL], mk "dg" [ofBool dg],
+            mk "made" [ofNat r.made], mk "errs" (r.errs.map errSexp), mk "mid" [rnodeSexp midLL], mk "dg" [ofBool dg], mk "fk" [ofBool fk], mk "ks" [ofBool (kindSensitive n)],
             -- for the histogram: what the certifier alone (without the model of the rewrites) says
             mk "base" [ofBool (certTopDir o rtl (toPat rtl n) p')]]))
-        let a1 := answer true
+        -- readings: an alternation directly under an Atomic node was its direct child or not (`dg`); the ending
+        -- walk's second reduction compares the kinds of fixed loops or not (`fk`, see `samePrefix`)
+        let a1 := answer false true
         if a1.1 then a1.2 else
-        let a0 := answer false
-        if a0.1 then a0.2 else a1.2
+        let a0 := answer false false
+        if a0.1 then a0.2 else
+        let b1 := answer true true
+        if b1.1 then b1.2 else
+        let b0 := answer true false
+        if b0.1 then b0.2 else a1.2
       | _, _ => "(bad-oracle)"
     | _, _, _, _, _ => "(bad-args)"
   | [.atom "cert", rtl, p, p', dj, un] =>
